@@ -72,6 +72,18 @@ def decide(ctx, trace):
                       "a Manager registering only {%s}: %s" % (f["family"],
                           ("does not load a full configuration file (%s %s)" % (f["outcome"], f.get("detail", ""))) if f["outcome"] != "accepted"
                           else "its ToJSON loses or alters the unregistered section %s" % f["section"]), f)
+    for i in v["badhistory"]:
+        f = facts[i - 1]
+        bad.add(i)
+        ctx.violation("C15:%s:OrderIndependent:%s" % (f["section"], f["seq"]),
+                      "section %s, %s: the result depends on what was loaded before in the process / on the object (%s %s)" % (
+                          f["section"], f["seq"], f["outcome"], f.get("detail", "")[:300]), f)
+    for i in v["badsave"]:
+        f = facts[i - 1]
+        bad.add(i)
+        ctx.violation("C15:manager:SaveJSON:lost-update",
+                      "concurrent SaveJSON calls: every save returned and one started after the last change (version %s), but the file "
+                      "holds version %s - an older in-flight save overwrote the newer one (script %s)" % (f["mem"], f["file"], f["script"]), f)
     ctx.traces_validated += len(facts) - len(bad)
     ctx.extra["facts_decided_by_tlc"] = len(facts)
     ctx.extra["secret_settings_checked"] = sorted({"%s.%s" % (facts[i - 1]["section"], facts[i - 1]["setting"]) for i in v["secrets"]})
@@ -80,6 +92,29 @@ def decide(ctx, trace):
     if not {"cluster.secret", "restapi.basic_auth_credentials", "restapi.private_key"} <= injected:
         raise vcheck.Infra("the driver could not place a recognisable value into every stated secret (got %s)" % sorted(injected))
     return v
+
+
+def save_scripts(ctx):
+    """ConfigSave.tla: the as-coded SaveJSON has no lost update (exhaustive); the variant that serialises outside
+    the lock has, and TLC's counterexample (its hist) is the interleaving the driver forces on the real Manager."""
+    import re
+    ctx.tlc("ConfigSave.tla", "ConfigSave.cfg", workers=4, timeout=900)
+    w = ctx.tlc("ConfigSave.tla", "ConfigSave_witness.cfg", workers=1, timeout=900, count=False, expect_violation=True)
+    if not w.violation:
+        raise vcheck.Infra("ConfigSave witness: serialising outside the lock should lose an update")
+    m = list(re.finditer(r"/\\ hist = (.*?)(?=\n/\\ |\n\n|\Z)", w.out, re.S))
+    if not m:
+        raise vcheck.Infra("ConfigSave witness: no hist in the counterexample")
+    hist = tla.parse_value(m[-1].group(1).strip())
+    if not hist or hist[0][0] != "start":
+        raise vcheck.Infra("ConfigSave witness: unexpected hist %r" % (hist,))
+    swap = {"a": "b", "b": "a", "": ""}
+    scripts = [hist, [[e[0], swap[e[1]]] for e in hist]]
+    # one more change before the first save and one after everything returned do not alter the shape
+    scripts.append([["change", ""]] + hist)
+    # a fully sequential run: two saves one after the other, a change in between
+    scripts.append([["start", "a"], ["snap", "a"], ["return", "a"], ["change", ""], ["start", "b"], ["snap", "b"], ["return", "b"]])
+    return scripts
 
 
 def run(ctx):
@@ -99,6 +134,8 @@ def run(ctx):
         "cluster.id and cluster.private_key are legacy keys (identity.json holds them since 0.11) and are not settings",
         "environment delivery uses names derived as envconfig does (PREFIX_KEYWITHOUTUNDERSCORES); a variable the component does "
         "not pick up is not judged",
+        "a NotifySave() still pending when Manager.Shutdown() is called is not judged (not part of the statement; the unchanged "
+        "watchSave loop itself may pick the tick before the request)",
         "cross-setting constraints are covered only as far as single-setting edits of the default configuration reach them",
     ]
     # SPEC
@@ -123,6 +160,17 @@ def run(ctx):
                         timeout=1500, panic_is_violation=True)
             if os.path.exists(part):
                 out.write(open(part).read())
+    # concurrent saves: model, counterexamples of the unlocked variant, replay on the real Manager
+    scripts = save_scripts(ctx)
+    sfile = os.path.join(ctx.work, "c15_save_scripts.ndjson")
+    with open(sfile, "w") as f:
+        for i, sc in enumerate(scripts):
+            f.write(json.dumps({"id": i + 1, "script": sc}) + "\n")
+    spart = os.path.join(ctx.work, "c15_save_facts.ndjson")
+    ctx.go_test("c15_config", run="TestSaveRace$", infile=sfile, env={"VERIF_TRACE": spart}, timeout=900, panic_is_violation=True)
+    with open(trace, "a") as out:
+        out.write(open(spart).read())
+    ctx.extra["save_interleavings_replayed"] = len(scripts)
     # V
     decide(ctx, trace)
 
